@@ -707,7 +707,63 @@ const (
 	perByte    = 64
 )
 
+// hostileCertTable says whether b (a raw SNP report followed by an AMD certificate table, a bare
+// table, or the hex / base64 text of either) carries a table entry whose offset+length, computed in
+// 64 bits, leaves the table. The pinned go-sev-guest v0.13.0 checks that sum in 32 bits and then
+// allocates the declared length, so such inputs end in a panic, a multi-GiB allocation, an
+// out-of-memory death or seconds of page clearing depending on the values: one root cause in the
+// dependency, recorded as a known finding.
+func hostileCertTable(b []byte) bool {
+	cands := [][]byte{b}
+	if d, err := hex.DecodeString(string(b)); err == nil {
+		cands = append(cands, d)
+	} else if d, err := base64.StdEncoding.DecodeString(string(b)); err == nil {
+		cands = append(cands, d)
+	}
+	for _, c := range cands {
+		for _, start := range []int{0x4a0, 0} {
+			if len(c) < start+24 {
+				continue
+			}
+			tbl := c[start:]
+			for i := 0; i+24 <= len(tbl); i += 24 {
+				off := uint64(binary.LittleEndian.Uint32(tbl[i+16:]))
+				ln := uint64(binary.LittleEndian.Uint32(tbl[i+20:]))
+				zero := off == 0 && ln == 0
+				for _, x := range tbl[i : i+16] {
+					if x != 0 {
+						zero = false
+					}
+				}
+				if zero {
+					break
+				}
+				if off+ln > uint64(len(tbl)) && (off+ln)&0xffffffff <= uint64(len(tbl)) {
+					return true
+				}
+				if ln > uint64(len(tbl)) && (off+ln)&0xffffffff <= uint64(len(tbl)) {
+					return true
+				}
+			}
+		}
+	}
+	return false
+}
+
 func verdict(t ev.TB, r req, total int, res isolate.Result, what string) bool {
+	return verdictDep(t, r, total, res, what, "")
+}
+
+// verdictDep is verdict with the name of a recorded dependency defect the input is known to trigger
+// ("" = none): every failure mode of such an input is keyed under that defect.
+func verdictDep(t ev.TB, r req, total int, res isolate.Result, what string, dep string) bool {
+	if dep != "" && (res.Outcome == "panic" || res.Outcome == "died" || res.Outcome == "timeout" || res.Alloc > uint64(baseBudget)+perByte*uint64(total) || res.CPUms > 20000) {
+		kind := res.Outcome
+		if kind == "ok" || kind == "error" {
+			kind = "resources"
+		}
+		return ev.Violation(t, "C07/dep/"+dep+"/"+kind, "%s: %s %s (alloc %d, cpu %d ms) on %s", r.Entry, res.Outcome, res.Msg, res.Alloc, res.CPUms, what)
+	}
 	switch res.Outcome {
 	case "infra":
 		ev.Note("inconclusive case (not judged): %s", res.Msg)
@@ -751,7 +807,21 @@ func runCase(t *rapid.T, name string, r req, genClass string, blobs ...[]byte) {
 	}
 	res := isolate.RunConfirmed("dec", encode(r, blobs...), uint64(baseBudget)+perByte*uint64(total), 20000)
 	what := fmt.Sprintf("entry %s opt %d str %q gen %s blobs %s", r.Entry, r.Opt, r.Str, genClass, quoteAll(blobs))
-	if !verdict(t, r, total, res, what) {
+	if res.CPUms > 2000 {
+		ev.Note("slow case: %d ms cpu, outcome %s, %s", res.CPUms, res.Outcome, what)
+		if dir := os.Getenv("VERIF_SLOW_DIR"); dir != "" {
+			for i, b := range blobs {
+				os.WriteFile(fmt.Sprintf("%s/slow-%s-%d-%d.bin", dir, strings.ReplaceAll(r.Entry, "/", "_"), res.CPUms, i), b, 0o644)
+			}
+		}
+	}
+	dep := ""
+	for _, b := range blobs {
+		if hostileCertTable(b) {
+			dep = "go-sev-guest-certtable"
+		}
+	}
+	if !verdictDep(t, r, total, res, what, dep) {
 		return
 	}
 	nontrivial := res.Class != "outer-framing-rejected" && !strings.HasPrefix(res.Class, "rejected:could not unmarshal VM launch") && !strings.HasPrefix(res.Class, "rejected:unknown attestation format") && !strings.HasPrefix(res.Class, "rejected:quote is nil")
